@@ -214,6 +214,13 @@ def api_calls(version, vlevel):
       ("header-add", lambda g, s: (g.header.add("xx", s), str(g))),
       ("header-set", lambda g, s: (g.header.set(s, 1), str(g))),
   ]
+  # encoded strings assigned to a tag of every datatype, then written/validated
+  for dt in "AifZJHB":
+    menu.append(("set-typed-" + dt,
+                 lambda g, s, dt=dt: (g.segment(seg).set_datatype("xt", dt),
+                                      g.segment(seg).set("xt", s), str(g),
+                                      g.segment(seg).validate_field("xt"),
+                                      g.segment(seg).validate())))
   if version == "gfa2":
     # documented in doc/tutorial/references.rst, "Adding and removing group
     # elements", on connected and on stand-alone group lines
@@ -238,6 +245,9 @@ def api_calls(version, vlevel):
   return fresh, menu
 
 
+TYPED_ALPHA = ["f", "c", ",", ".", "-", "1", "e", "{", "[", "A", "+"]
+
+
 def work_api(item):
   version, vlevel, name_idx = item
   res = new_result()
@@ -245,7 +255,8 @@ def work_api(item):
   fresh, menu = api_calls(version, vlevel)
   name, fn = menu[name_idx]
   n = 0
-  for s in enumstr.all_strings(API_ALPHA, 3):
+  alpha = TYPED_ALPHA if name.startswith("set-typed-") else API_ALPHA
+  for s in enumstr.all_strings(alpha, 3):
     n += 1
     res["evaluations"] += 1
     try:
